@@ -327,6 +327,22 @@ def run(ck: Check) -> int:
         K.k5_loop(sr, drv, G, W, U, R, 25 if quick else 300, _case_cases, on_case, spec_for=_case_spec)
     ck.stream('K5-case-variant-starts', s_k5case)
 
+    def s_caps(sr):
+        import streams
+        import gen
+        import pathcheck as PC
+        gp = [PC.gen_path(R) for _ in range(1500 if quick else 20000)]
+        gp = [p for p in gp if '**' in p][: (500 if quick else 8000)] + ['**', '**/a', 'a/**', '**/a/**', '***/a/**', '**/*/**', '*/**/a', '**/**']
+        base = W.PATHNAME | W.GLOBSTAR | W.REALPATH | W.EXTMATCH | W.FORCEUNIX
+        cases = [(p, base | (W.DOTMATCH if R.random() < 0.4 else 0) | (W.GLOBSTARLONG if R.random() < 0.3 else 0) |
+                  (W.MATCHBASE if R.random() < 0.15 else 0), False) for p in gp]
+        names = [n for n in gen.names_upto('ab/', 4) if n] + ['a/b/a/b', 'b/a/a/', 'ab/a/b', '.a/b', 'a/.b/a']
+        streams.k2cap(sr, drv, cases, names)
+        sr.note = ('K2-captures: the `**` group spans re.fullmatch reports under REALPATH (globstar capture on) vs Re.fullmatchCap of the model AST — '
+                   'what _fs_match walks (fullmatchCap_spans / real_link_rule_first are about these spans)')
+    if drv:
+        ck.stream('K2-capture-spans', s_caps)
+
     def s_k6(sr):
         sr.note = ('K6: globmatch/globfilter(REALPATH) via root_dir/cwd/dir_fd on every tree entry (also through links), '
                    'with/without trailing separator, non-existent and absolute spellings, and every glob result vs matchReal')
